@@ -156,6 +156,57 @@ def strace_fault(job):
         ws.rmws(w)
 
 
+# ---- (iii) file size limit: short writes ------------------------------------------------------------------
+LONG = b'x' * 9000 + b'\n'
+
+
+def fsize_ws():
+    """p1 changes f (18 KB, two long lines) and g; p2 does not apply to f: its reject ends with a 9 KB line."""
+    w = ws.mkws('c18f')
+    ws.write(w, 'f', b'h\n' + LONG + b'm\n' + LONG)
+    ws.write(w, 'g', b'one\n')
+    ws.write(w, 'patches/p1.patch', b'--- a/f\n+++ b/f\n@@ -1,2 +1,2 @@\n-h\n+H\n ' + LONG + b'--- a/g\n+++ b/g\n@@ -1 +1 @@\n-one\n+two\n')
+    ws.write(w, 'patches/p2.patch', b'--- a/f\n+++ b/f\n@@ -2,3 +2,3 @@\n ' + LONG + b'-does not match\n+M\n ' + LONG)
+    ws.write(w, 'series', b'p1.patch\np2.patch\n')
+    return w
+
+
+def fsize_fault(job):
+    """The push runs with RLIMIT_FSIZE = limit and SIGXFSZ ignored: the write that crosses the limit is short, the next
+    one fails with EFBIG.  Whatever file was cut: the exit status is 1 and the message names it; a cut working file or
+    backup means nothing is recorded as applied."""
+    import resource, signal, subprocess
+    limit, threads, last = job
+    w = fsize_ws()
+    try:
+        def pre():
+            signal.signal(signal.SIGXFSZ, signal.SIG_IGN)
+            resource.setrlimit(resource.RLIMIT_FSIZE, (limit, limit))
+        args = [BIN, 'push', '-q', '--threads', str(threads), '--backup', 'always'] + (['1'] if last == 1 else ['-a'])
+        try:
+            p = subprocess.run(args, cwd=w, env=ws.ENV, stdout=subprocess.PIPE, stderr=subprocess.PIPE, timeout=120, preexec_fn=pre)
+            rc, se = p.returncode, p.stderr.decode('utf-8', 'replace')
+        except subprocess.TimeoutExpired:
+            return [('crash', 'timeout under a file size limit of %d' % limit)], None
+        snap = ws.snapshot(w)
+        cut = sorted(p_ for p_, v in snap.items() if not p_.endswith('/') and len(v[0]) == limit)
+        probs = []
+        if ws.crashed(rc):
+            return [('crash', 'exit status %s under a file size limit of %d: %s' % (rc, limit, se.strip()[-200:]))], cut
+        if not cut:
+            return [], cut
+        if rc == 0:
+            probs.append(('success-reported', 'exit status 0 although %s was cut at the file size limit %d' % (cut, limit)))
+        if not any(os.path.basename(c) in se for c in cut):
+            probs.append(('no-file-in-message', 'no message names a file that was cut at the file size limit %d (%s): %r' % (limit, cut, se.strip()[-200:])))
+        ap = snap.get('.pc/applied-patches', (b'',))[0]
+        if any(not c.endswith('.rej') and c != '.pc/applied-patches' for c in cut) and ap:
+            probs.append(('recorded', 'patches were recorded (%r) although %s was cut' % (ap, cut)))
+        return probs, cut
+    finally:
+        ws.rmws(w)
+
+
 def check(prop, tier):
     res = Result(prop, tier, level='fault_enumeration')
     try:
@@ -208,6 +259,19 @@ def check(prop, tier):
                                   {'scenario': job[0], 'syscall': info[0], 'ordinal': info[1], 'path': info[2], 'errno': info[3]})
             total += len(sjobs)
             res.cov['parts']['strace-injector'] = {'faulted_runs': len(sjobs)}
+            # (iii) file size limit
+            limits = [1, 3, 100, 4096, 8192, 9001, 9005, 9500, 12000, 18000, 18005, 18020, 18100, 20000] if tier == 'quick' else sorted(set(list(range(1, 64, 7)) + list(range(8000, 19000, 250)) + [9001, 9005, 18005, 18020, 18100, 20000]))
+            fjobs = [(L, t, last) for L in limits for t in (1, 2) for last in (1, 2)]
+            fouts = pool.map(fsize_fault, fjobs, chunksize=2)
+            ncut = 0
+            for (L, t, last), (probs, cut) in zip(fjobs, fouts):
+                ncut += 1 if cut else 0
+                for cat, msg in probs:
+                    res.violation(cat + ':fsize', msg + ' (file size limit, threads %d, push %s)' % (t, '1' if last == 1 else '-a'), {'limit': L, 'threads': t, 'cut_files': cut})
+            if ncut == 0:
+                raise ToolError('file size limit injector cut no file')
+            total += len(fjobs)
+            res.cov['parts']['fsize-injector'] = {'faulted_runs': len(fjobs), 'runs_with_a_cut_file': ncut}
         res.cov['evaluations'] = total
         res.cov['distinct_nontrivial'] = total
         res.cov['traces_validated_against_impl'] = total
